@@ -115,6 +115,24 @@ Theorem C08_commute_shift_x : forall pw pwr gpow k rt n s, PwOk pw -> known_rule
 Proof. exact commute_shift_x. Qed.
 Print Assumptions C08_commute_shift_x.
 
+(** ---- which fields each Weaver method assigns is REGENERATED from weaver.py (Gen/WeaverFootprint.v: method_writes);
+     op_method / getf / writes / domain_methods / reshaping_methods / query_methods are defined at the top of
+     Proofs/FootprintProofs.v.  Deleting e.g. a reference update from a method breaks one of these obligations. ---- *)
+From Coq Require Import String.
+From TW Require Import Model.WeaverSpec Gen.WeaverFootprint Proofs.FootprintProofs.
+Open Scope string_scope.
+(** every domain method that assigns the working x (y) also assigns the reference x (y), and vice versa *)
+Theorem C08_reference_assigned_with_working : forall m, In m domain_methods ->
+  writes m FX = writes m FRX /\ writes m FY = writes m FRY /\ (writes m FX || writes m FY = true).
+Proof. exact reference_assigned_with_working. Qed.
+Print Assumptions C08_reference_assigned_with_working.
+
+Theorem C08_reshaping_never_assigns_reference : forall m, In m reshaping_methods ->
+  writes m FRX = false /\ writes m FRY = false /\ writes m FOX = false /\ writes m FOY = false.
+Proof. exact reshaping_never_assigns_reference. Qed.
+Print Assumptions C08_reshaping_never_assigns_reference.
+Close Scope string_scope.
+
 Example C08_example :
   match init (Some [qz 0; qz 1; qz 2; qz 4]) [qz 1; qz 3; qz 3; qz 0] with
   | Ok s0 =>
